@@ -2,6 +2,7 @@
 units."""
 import ast
 
+from sa.helpers import unalloc
 from sa.helpers import (the_return, mkflow, spec, code, one, calls, bind_call, param_env,
                         fmt, atom_of, unparse, walk_no_nested)
 from sa.index import AnalysisError
@@ -141,30 +142,54 @@ def _run(ix, R):
     with R.guard('2.edges', 'ALG', site, 'edges'):
         f = ix.func(site)
         fl = mkflow(ix, site)
-        wl = spec(fl, 'self.wavelengthGrid[::-1]')
-        st4 = [e for e in fl.of('store') if e.guards and e.guards[-1].positive]
-        g = st4[0].guards[-1] if st4 else None
+        four = spec(fl, 'self.rawData.shape[1] == 4')
+
+        def in4(e):
+            return any(x.rf is not None and fl.tab.equal(x.rf, four) and x.positive for x in e.guards) and \
+                not [x for x in e.guards if not (x.rf is not None and fl.tab.equal(x.rf, four))]
+        sts = fl.of('store')
         why = []
-        if g is None or not fl.tab.equal(g.rf, spec(fl, 'self.rawData.shape[1] == 4')):
-            why.append('4-column branch under %s' % (g.text() if g else None))
-        got = {unparse(e.target_ast): e for e in st4}
-        bw = got.get('self._bin_widths')
-        if bw is None or not fl.tab.equal(bw.value, spec(fl, 'self._obs_spectrum[:, 3]')):
-            why.append('widths = %s' % (fmt(fl, bw.value) if bw else None))
-        b = {'wl': wl, 'bw': spec(fl, 'self._bin_widths[::-1]')}
-        for tgt, want in (('bin_edges[0::2]', 'wl - bw/2'), ('bin_edges[1::2]', 'wl + bw/2')):
-            e = got.get(tgt)
-            if e is None or not fl.tab.equal(e.value, spec(fl, want, b)):
-                why.append('%s = %s' % (tgt, fmt(fl, e.value) if e else None))
-        fe = got.get('self._bin_edges')
-        if fe is None or not unparse(fe.node.value).endswith('[::-1]'):
-            why.append('edges not reversed back')
+        bw = [e for e in sts if fmt(fl, e.target) == 'self._bin_widths']
+        if len(bw) != 1 or not in4(bw[0]) or not fl.tab.equal(bw[0].value, spec(fl, 'self._obs_spectrum[:, 3]')):
+            why.append('widths = %s under %s' % ([fmt(fl, e.value) for e in bw], [[x.text() for x in e.guards] for e in bw]))
+        # the interleaved edge array: stores at [0::2] and [1::2] of one buffer, which then becomes self._bin_edges
+        even = odd = None
+        for e in sts:
+            ta = atom_of(fl, e.target)
+            if ta is not None and ta.head == 'idx' and len(ta.args) == 2 and isinstance(ta.args[1], Slice) and \
+                    ta.args[1].step is not None and ta.args[1].step.const() == 2 and ta.args[1].hi is None:
+                lo = ta.args[1].lo.const() if ta.args[1].lo is not None else 0
+                if lo == 0:
+                    even = (e, ta.args[0])
+                elif lo == 1:
+                    odd = (e, ta.args[0])
+        fe = [e for e in sts if fmt(fl, e.target) == 'self._bin_edges']
+        if even is None or odd is None or len(fe) != 1:
+            raise AnalysisError('the interleaved edge array (stores at [0::2] and [1::2], then self._bin_edges) is not found')
+        buf = even[1]
+        b = {'wl': code(fl, 'self.wavelengthGrid'), 'bw': code(fl, 'self._bin_widths'), 'buf': buf}
+        ascending = fl.tab.equal(even[0].value, spec(fl, 'wl[::-1] - bw[::-1]/2', b)) and \
+            fl.tab.equal(odd[0].value, spec(fl, 'wl[::-1] + bw[::-1]/2', b)) and \
+            fl.tab.equal(fe[0].value, spec(fl, 'buf[::-1]', b))
+        descending = fl.tab.equal(even[0].value, spec(fl, 'wl + bw/2', b)) and \
+            fl.tab.equal(odd[0].value, spec(fl, 'wl - bw/2', b)) and fl.tab.equal(fe[0].value, buf)
+        if not fl.tab.equal(odd[1], buf):
+            why.append('the two halves are written to different arrays')
+        if not (ascending or descending):
+            why.append('bin_edges[0::2] = %s; bin_edges[1::2] = %s; self._bin_edges = %s' % (
+                fmt(fl, even[0].value), fmt(fl, odd[0].value), fmt(fl, fe[0].value)))
+        for e in (even[0], odd[0], fe[0]):
+            if not in4(e) or e.loops:
+                why.append('%s runs under %s' % (unparse(e.node)[:40], [x.text() for x in e.guards]))
+        za = atom_of(fl, unalloc(fl, buf))
+        if za is None or za.head != 'call' or za.extra[0] not in ('fn:zeros', 'fn:empty'):     # both halves are written
+            why.append('edge array is %s' % fmt(fl, buf))
         mb = [e for e in calls(fl, 'manual_binning')]
-        if len(mb) != 1 or not mb[0].guards or mb[0].guards[-1].positive:
+        if len(mb) != 1 or not any(x.rf is not None and fl.tab.equal(x.rf, four) and not x.positive for x in mb[0].guards):
             why.append('3-column branch')
         R.check('2.edges', 'ALG', site,
-                '4 columns: widths = column 3, edges = centre -/+ width/2 interleaved on the ascending grid then reversed; '
-                'otherwise mid-point edges',
+                '4 columns: widths = column 3, edges = centre -/+ width/2 interleaved (on the ascending grid then reversed, '
+                'or directly in descending order); otherwise mid-point edges',
                 not why, key='; '.join(why), detail='; '.join(why), loc=f.loc())
     site = A + '.manual_binning'
     with R.guard('2.manual', 'ALG', site, 'manual'):
